@@ -185,6 +185,26 @@ theorem relTo_append (root s : Comps) : relTo root (root ++ s) = s := by
 
 theorem relTo_nil (p : Comps) : relTo [] p = p := relTo_append [] p
 
+/-- a relative path without `..` is the path with the root taken off -/
+theorem relTo_strip_no_dotdot : ∀ (root p : Comps),
+    (relTo.strip root p).any (· == "..") = false → root ++ relTo.strip root p = p
+  | [], p, _ => by cases p <;> simp [relTo.strip]
+  | r :: rs, [], h => by simp [relTo.strip, List.replicate_succ] at h
+  | r :: rs, a :: as, h => by
+    by_cases hra : (r == a) = true
+    · have e : r = a := by simpa using hra
+      subst e
+      simp only [relTo.strip, beq_self_eq_true, if_true] at h ⊢
+      rw [List.cons_append, relTo_strip_no_dotdot rs as h]
+    · simp only [relTo.strip, hra, if_false, List.replicate_succ] at h
+      simp at h
+
+theorem relTo_no_dotdot (root p : Comps) (h : (relTo root p).any (· == "..") = false) :
+    root ++ relTo root p = p := relTo_strip_no_dotdot root p h
+
+theorem prefix_of_relTo_no_dotdot (root p : Comps) (h : (relTo root p).any (· == "..") = false) :
+    root <+: p := ⟨_, relTo_no_dotdot root p h⟩
+
 /-! ## `cleanComps` -/
 
 def cleanStep (acc : Comps) (c : String) : Comps :=
@@ -500,6 +520,98 @@ theorem rootOpen_plain {fs : FS} {d : Comps} {c : String} {docs : R (List Val)} 
   rw [rootWalk_step_plain hc hl rfl, rootWalk_nil]
   simp only [hl]
 
+theorem rootWalk_plainDir {fs : FS} {d : Comps} (hd : PlainDir fs d) :
+    fs.rootWalk [] linkFuel [] d = .ok d := by
+  obtain ⟨k, hk⟩ : ∃ k, linkFuel = (k + 2) + d.length := ⟨linkFuel - 2 - d.length, by have := hd.2; omega⟩
+  have := rootWalk_through fs [] d [] (k + 2) [] hd.1
+  rw [List.append_nil] at this
+  rw [hk, this]
+  rfl
+
+/-! ## the rooted existence probe (`Parser.stat`) -/
+
+theorem rootProbe_zero (fs : FS) (root cur : Comps) (todo : List String) :
+    fs.rootProbe root 0 cur todo = .refused := rfl
+
+theorem rootProbe_nil (fs : FS) (root cur : Comps) (fuel : Nat) :
+    fs.rootProbe root (fuel + 1) cur [] = .found cur := rfl
+
+theorem rootProbe_cons (fs : FS) (root cur : Comps) (fuel : Nat) (c : String) (rest : List String) :
+    fs.rootProbe root (fuel + 1) cur (c :: rest) =
+      if c == "." || c == "" then fs.rootProbe root fuel cur rest
+      else if c == ".." then
+        if cur.length ≤ root.length then .refused
+        else fs.rootProbe root fuel cur.dropLast rest
+      else
+        match fs.lstat (cur ++ [c]) with
+        | none => .missing
+        | some (.link t) =>
+          if isAbsPath t then .refused
+          else fs.rootProbe root fuel cur (splitPath t ++ rest)
+        | some _ => fs.rootProbe root fuel (cur ++ [c]) rest := by
+  rw [FS.rootProbe]
+  rfl
+
+theorem rootProbe_step_plain {fs : FS} {root cur : Comps} {fuel : Nat} {c : String}
+    {rest : List String} {n : FNode} (hc : plainComp c = true)
+    (hl : fs.lstat (cur ++ [c]) = some n) (hn : n.isLink = false) :
+    fs.rootProbe root (fuel + 1) cur (c :: rest) = fs.rootProbe root fuel (cur ++ [c]) rest := by
+  have hc' := (plainComp_iff c).1 hc
+  rw [rootProbe_cons, hl]
+  cases n with
+  | link t => cases hn
+  | file d => simp [hc'.1, hc'.2.1, hc'.2.2]
+  | dir => simp [hc'.1, hc'.2.1, hc'.2.2]
+
+theorem rootProbe_step_missing {fs : FS} {root cur : Comps} {fuel : Nat} {c : String}
+    {rest : List String} (hc : plainComp c = true) (hl : fs.lstat (cur ++ [c]) = none) :
+    fs.rootProbe root (fuel + 1) cur (c :: rest) = .missing := by
+  have hc' := (plainComp_iff c).1 hc
+  rw [rootProbe_cons, hl]
+  simp [hc'.1, hc'.2.1, hc'.2.2]
+
+theorem rootProbe_through (fs : FS) (root : Comps) : ∀ (t : List String) (cur : Comps) (fuel : Nat)
+    (rest : List String), NoLinksAlong fs cur t →
+      fs.rootProbe root (fuel + t.length) cur (t ++ rest) = fs.rootProbe root fuel (cur ++ t) rest
+  | [], cur, fuel, rest, _ => by simp
+  | c :: t, cur, fuel, rest, h => by
+    obtain ⟨hc, n, hl, hn⟩ := h.head
+    rw [List.length_cons, ← Nat.add_assoc, List.cons_append, rootProbe_step_plain hc hl hn,
+      rootProbe_through fs root t _ fuel rest h.tail]
+    simp
+
+theorem rootExists_eq (fs : FS) (root : Comps) (rel : List String) :
+    fs.rootExists root rel =
+      match fs.rootProbe root linkFuel root rel with
+      | .missing => false
+      | _ => true := rfl
+
+/-- with no root set, a non-link entry of a link-free directory is seen … -/
+theorem rootExists_file {fs : FS} {d : Comps} {c : String} {n : FNode} (hd : PlainDir fs d)
+    (hc : plainComp c = true) (hl : fs.lstat (d ++ [c]) = some n) (hn : n.isLink = false) :
+    fs.rootExists [] (d ++ [c]) = true := by
+  rw [rootExists_eq]
+  obtain ⟨k, hk⟩ : ∃ k, linkFuel = (k + 2) + d.length := ⟨linkFuel - 2 - d.length, by have := hd.2; omega⟩
+  rw [hk, rootProbe_through fs [] d [] (k + 2) [c] hd.1]
+  simp only [List.nil_append]
+  rw [rootProbe_step_plain hc hl hn, rootProbe_nil]
+
+/-- … and an absent one is reported missing -/
+theorem rootExists_missing {fs : FS} {d : Comps} {c : String} (hd : PlainDir fs d)
+    (hc : plainComp c = true) (hl : fs.lstat (d ++ [c]) = none) :
+    fs.rootExists [] (d ++ [c]) = false := by
+  rw [rootExists_eq]
+  obtain ⟨k, hk⟩ : ∃ k, linkFuel = (k + 2) + d.length := ⟨linkFuel - 2 - d.length, by have := hd.2; omega⟩
+  rw [hk, rootProbe_through fs [] d [] (k + 2) [c] hd.1]
+  simp only [List.nil_append]
+  rw [rootProbe_step_missing hc hl]
+
+/-- parser.go:findFile with the rooted `Parser.stat` — the first supported extension for which
+    `layer.ext` is not reported missing beneath `root` (what `fileParents` uses) -/
+def FS.findRooted (fs : FS) (root dir : Comps) (layer : String) : Option Comps :=
+  (supportedExts.map fun e => dir ++ [layer ++ "." ++ e]).find?
+    (fun c => fs.rootExists root (relTo root c))
+
 /-! ## `fileParents` -/
 
 def parentNames (dirs : List ParentDir) : List String :=
@@ -509,36 +621,35 @@ def hasNoParent (dirs : List ParentDir) : Bool :=
   dirs.any fun d => match d with | .noParent => true | _ => false
 
 /-- the filename rule: `a.b.yaml` has the parent layer `a` -/
-def fromName (fs : FS) (p : Comps) : R (List Comps) :=
+def fromName (fs : FS) (cfg : RootCfg) (p : Comps) : R (List Comps) :=
   let parts := (baseOf p).splitOn "."
   if parts.length < 2 then .error .invalidFilename
   else if parts.length == 2 then .ok []
   else
-    match fs.findFile (dirOf p) (".".intercalate (parts.take (parts.length - 2))) with
+    match fs.findRooted cfg.root (dirOf p) (".".intercalate (parts.take (parts.length - 2))) with
     | some f => .ok [f]
     | none => .error .missingFile
 
 /-- the files one `$parent` name stands for -/
-def globName (fs : FS) (path : Comps) (n : String) : List Comps :=
-  fs.globFiles (dirOf (cleanComps (dirOf path ++ splitPath n)))
-    (baseOf (cleanComps (dirOf path ++ splitPath n)))
+def globName (fs : FS) (cfg : RootCfg) (path : Comps) (n : String) : List Comps :=
+  fs.globFiles cfg.root (cleanComps (dirOf path ++ splitPath n))
 
-def globStep (fs : FS) (path : Comps) (acc : List Comps) (n : String) : R (List Comps) :=
-  if (globName fs path n).isEmpty then .error .missingFile else .ok (acc ++ globName fs path n)
+def globStep (fs : FS) (cfg : RootCfg) (path : Comps) (acc : List Comps) (n : String) : R (List Comps) :=
+  if (globName fs cfg path n).isEmpty then .error .missingFile else .ok (acc ++ globName fs cfg path n)
 
-theorem fileParents_eq (fs : FS) (path : Comps) (docs : List Val) :
-    fileParents fs path docs =
+theorem fileParents_eq (fs : FS) (cfg : RootCfg) (path : Comps) (docs : List Val) :
+    fileParents fs cfg path docs =
       match docs.mapM parentDirective with
       | .error e => .error e
       | .ok dirs =>
         if hasNoParent dirs then
           if !(parentNames dirs).isEmpty then .error .conflictingParent else .ok []
         else if !(parentNames dirs).isEmpty then
-          (parentNames dirs).foldlM (globStep fs path) []
+          (parentNames dirs).foldlM (globStep fs cfg path) []
         else
           match fs.evalSymlinks path with
           | none => .error .other
-          | some dest => fromName fs dest := by
+          | some dest => fromName fs cfg dest := by
   unfold fileParents
   cases docs.mapM parentDirective with
   | error e => rfl
@@ -583,7 +694,7 @@ theorem loadFileAndParents_succ (fs : FS) (cfg : RootCfg) (fuel : Nat) (path : C
         match loadFile fs cfg path (fileIdOf childId path) with
         | .error e => .error e
         | .ok raw =>
-          match fileParents fs path raw with
+          match fileParents fs cfg path raw with
           | .error e => .error e
           | .ok parents =>
             match loadSubs fs cfg fuel (fileIdOf childId path)
@@ -604,7 +715,7 @@ theorem loadFileAndParents_succ (fs : FS) (cfg : RootCfg) (fuel : Nat) (path : C
     | error e => rfl
     | ok raw =>
       simp only [R_bind_ok]
-      cases fileParents fs path raw with
+      cases fileParents fs cfg path raw with
       | error e => rfl
       | ok parents =>
         simp only [R_bind_ok]
@@ -705,12 +816,12 @@ theorem hasNoParent_absent (docs : List Val) :
   | cons d ds ih => simp [hasNoParent]
 
 /-- without any `$parent` directive the parents come from the (resolved) file name -/
-theorem fileParents_no_directive (fs : FS) (path : Comps) (docs : List Val)
+theorem fileParents_no_directive (fs : FS) (cfg : RootCfg) (path : Comps) (docs : List Val)
     (h : ∀ d ∈ docs, parentDirective d = .ok .absent) :
-    fileParents fs path docs =
+    fileParents fs cfg path docs =
       match fs.evalSymlinks path with
       | none => .error .other
-      | some dest => fromName fs dest := by
+      | some dest => fromName fs cfg dest := by
   rw [fileParents_eq, mapM_parentDirective_absent docs h]
   simp only [hasNoParent_absent, parentNames_absent]
   rfl
@@ -784,6 +895,55 @@ theorem findFile_none_of_missing {fs : FS} {d : Comps} {layer : String}
   obtain ⟨e, he, rfl⟩ := List.mem_map.1 hx
   simp [exists_layer_missing hd hl he (h e he)]
 
+/-! ## `findRooted` (the probe `fileParents` uses) -/
+
+theorem findRooted_eq (fs : FS) (root dir : Comps) (layer : String) :
+    fs.findRooted root dir layer =
+      (supportedExts.map fun e => dir ++ [layer ++ "." ++ e]).find?
+        (fun c => fs.rootExists root (relTo root c)) := rfl
+
+theorem findRooted_some (fs : FS) (root dir : Comps) (layer : String) (f : Comps)
+    (h : fs.findRooted root dir layer = some f) :
+    ∃ e, e ∈ supportedExts ∧ f = dir ++ [layer ++ "." ++ e] ∧
+      fs.rootExists root (relTo root f) = true := by
+  rw [findRooted_eq] at h
+  have h1 := List.mem_of_find?_eq_some h
+  have h2 := List.find?_some h
+  obtain ⟨e, he, rfl⟩ := List.mem_map.1 h1
+  exact ⟨e, he, rfl, h2⟩
+
+theorem rootExists_layer_file {fs : FS} {d : Comps} {layer e : String} {n : FNode} (hd : PlainDir fs d)
+    (hl : 0 < layer.length) (he : e ∈ supportedExts)
+    (h : fs.lstat (d ++ [layer ++ "." ++ e]) = some n) (hn : n.isLink = false) :
+    fs.rootExists [] (relTo [] (d ++ [layer ++ "." ++ e])) = true := by
+  rw [relTo_nil]
+  exact rootExists_file hd (plainComp_layer _ _ hl (supportedExt_length_pos e he)) h hn
+
+theorem rootExists_layer_missing {fs : FS} {d : Comps} {layer e : String} (hd : PlainDir fs d)
+    (hl : 0 < layer.length) (he : e ∈ supportedExts)
+    (h : fs.lstat (d ++ [layer ++ "." ++ e]) = none) :
+    fs.rootExists [] (relTo [] (d ++ [layer ++ "." ++ e])) = false := by
+  rw [relTo_nil]
+  exact rootExists_missing hd (plainComp_layer _ _ hl (supportedExt_length_pos e he)) h
+
+theorem findRooted_layerFile {fs : FS} {d : Comps} {layer e₀ : String} {content : R (List Val)}
+    (hd : PlainDir fs d) (hl : 0 < layer.length) (h : LayerFile fs d layer e₀ content) :
+    fs.findRooted [] d layer = some (d ++ [layer ++ "." ++ e₀]) := by
+  rw [findRooted_eq]
+  exact find?_map_unique (fun e => d ++ [layer ++ "." ++ e])
+    (fun c => fs.rootExists [] (relTo [] c)) e₀ supportedExts h.ext
+    (rootExists_layer_file hd hl h.ext h.file rfl)
+    (fun e he hne => rootExists_layer_missing hd hl he (h.unique e he hne))
+
+theorem findRooted_none_of_missing {fs : FS} {d : Comps} {layer : String}
+    (hd : PlainDir fs d) (hl : 0 < layer.length)
+    (h : ∀ e ∈ supportedExts, fs.lstat (d ++ [layer ++ "." ++ e]) = none) :
+    fs.findRooted [] d layer = none := by
+  rw [findRooted_eq, List.find?_eq_none]
+  intro x hx
+  obtain ⟨e, he, rfl⟩ := List.mem_map.1 hx
+  simp [rootExists_layer_missing hd hl he (h e he)]
+
 /-! ## path pieces -/
 
 theorem baseOf_snoc (d : Comps) (c : String) : baseOf (d ++ [c]) = c := by
@@ -808,11 +968,11 @@ theorem evalSymlinks_layerFile {fs : FS} {d : Comps} {layer e₀ : String} {cont
 
 /-! ## filename chains -/
 
-theorem fromName_snoc (fs : FS) (d : Comps) (l e : String) (he : '.' ∉ e.toList) :
-    fromName fs (d ++ [l ++ "." ++ e]) =
+theorem fromName_snoc (fs : FS) (cfg : RootCfg) (d : Comps) (l e : String) (he : '.' ∉ e.toList) :
+    fromName fs cfg (d ++ [l ++ "." ++ e]) =
       if (l.splitOn ".").length = 1 then .ok []
       else
-        match fs.findFile d (".".intercalate (l.splitOn ".").dropLast) with
+        match fs.findRooted cfg.root d (".".intercalate (l.splitOn ".").dropLast) with
         | some f => .ok [f]
         | none => .error .missingFile := by
   unfold fromName
@@ -843,7 +1003,7 @@ theorem lfp_leaf {fs : FS} {cfg : RootCfg} {fuel : Nat} {path : Comps} {childId 
     {c : List String} {chain : List Comps} {raw : List Val}
     (hc : chain.contains path = false)
     (hl : loadFile fs cfg path (fileIdOf childId path) = .ok raw)
-    (hp : fileParents fs path raw = .ok []) :
+    (hp : fileParents fs cfg path raw = .ok []) :
     loadFileAndParents fs cfg (fuel + 1) path childId c chain =
       .ok ([mineOf (fileIdOf childId path) path raw [] []],
         docIdsOf (fileIdOf childId path) raw.length) := by
@@ -855,7 +1015,7 @@ theorem lfp_single {fs : FS} {cfg : RootCfg} {fuel : Nat} {path q : Comps}
     {sub : List LFile} {ids : List String}
     (hc : chain.contains path = false)
     (hl : loadFile fs cfg path (fileIdOf childId path) = .ok raw)
-    (hp : fileParents fs path raw = .ok [q])
+    (hp : fileParents fs cfg path raw = .ok [q])
     (hq : loadFileAndParents fs cfg fuel q (some (fileIdOf childId path))
       (docIdsOf (fileIdOf childId path) raw.length) (path :: chain) = .ok (sub, ids)) :
     loadFileAndParents fs cfg (fuel + 1) path childId c chain =
@@ -877,16 +1037,17 @@ theorem mineOf_one (fid : String) (path : Comps) (v : Val) (parents : List Comps
   simp [mineOf, docIdsOf, oneDoc, stripParent_of_absent v hv, List.range_succ]
 
 theorem fileParents_layer {fs : FS} {d : Comps} {l e : String} {content : R (List Val)}
-    {docs : List Val} (hd : PlainDir fs d) (hl : 0 < l.length) (h : LayerFile fs d l e content)
+    {docs : List Val} (cfg : RootCfg) (hd : PlainDir fs d) (hl : 0 < l.length)
+    (h : LayerFile fs d l e content)
     (hdocs : ∀ x ∈ docs, parentDirective x = .ok .absent) :
-    fileParents fs (d ++ [l ++ "." ++ e]) docs =
+    fileParents fs cfg (d ++ [l ++ "." ++ e]) docs =
       if (l.splitOn ".").length = 1 then .ok []
       else
-        match fs.findFile d (".".intercalate (l.splitOn ".").dropLast) with
+        match fs.findRooted cfg.root d (".".intercalate (l.splitOn ".").dropLast) with
         | some f => .ok [f]
         | none => .error .missingFile := by
-  rw [fileParents_no_directive fs _ docs hdocs, evalSymlinks_layerFile hd hl h]
-  exact fromName_snoc fs d l e (supportedExt_noDot e h.ext)
+  rw [fileParents_no_directive fs cfg _ docs hdocs, evalSymlinks_layerFile hd hl h]
+  exact fromName_snoc fs cfg d l e (supportedExt_noDot e h.ext)
 
 theorem parts_a : "a".splitOn "." = ["a"] := by rw [splitOn_dot]; decide
 theorem parts_ab : "a.b".splitOn "." = ["a", "b"] := by rw [splitOn_dot]; decide
@@ -917,8 +1078,8 @@ theorem chain1 (hd : PlainDir fs d) (h₁ : LayerFile fs d "a" e₁ (.ok [v₁])
       .ok ([{ id := fileIdOf childId (d ++ ["a" ++ "." ++ e₁]), path := d ++ ["a" ++ "." ++ e₁],
               docs := [oneDoc (fileIdOf childId (d ++ ["a" ++ "." ++ e₁])) [] v₁] }],
         [fileIdOf childId (d ++ ["a" ++ "." ++ e₁]) ++ "|doc" ++ toString 0]) := by
-  have hp : fileParents fs (d ++ ["a" ++ "." ++ e₁]) [v₁] = .ok [] := by
-    rw [fileParents_layer hd (by decide) h₁ (by simpa using a₁), parts_a]; rfl
+  have hp : fileParents fs ⟨[], cwd⟩ (d ++ ["a" ++ "." ++ e₁]) [v₁] = .ok [] := by
+    rw [fileParents_layer ⟨[], cwd⟩ hd (by decide) h₁ (by simpa using a₁), parts_a]; rfl
   rw [lfp_leaf hc (loadFile_layerFile hd (by decide) h₁ cwd _) hp, mineOf_one _ _ _ _ _ a₁]
   simp [docIdsOf, List.range_succ]
 
@@ -943,10 +1104,10 @@ theorem chain2 (hd : PlainDir fs d) (h₁ : LayerFile fs d "a" e₁ (.ok [v₁])
                 [fileIdOf childId (d ++ ["a.b" ++ "." ++ e₂]) ++ "|" ++
                   pathStr (d ++ ["a" ++ "." ++ e₁]) ++ "|doc" ++ toString 0] v₂] }],
         [fileIdOf childId (d ++ ["a.b" ++ "." ++ e₂]) ++ "|doc" ++ toString 0]) := by
-  have hp : fileParents fs (d ++ ["a.b" ++ "." ++ e₂]) [v₂] = .ok [d ++ ["a" ++ "." ++ e₁]] := by
-    rw [fileParents_layer hd (by decide) h₂ (by simpa using a₂), parts_ab]
+  have hp : fileParents fs ⟨[], cwd⟩ (d ++ ["a.b" ++ "." ++ e₂]) [v₂] = .ok [d ++ ["a" ++ "." ++ e₁]] := by
+    rw [fileParents_layer ⟨[], cwd⟩ hd (by decide) h₂ (by simpa using a₂), parts_ab]
     have : ".".intercalate (["a", "b"] : List String).dropLast = "a" := by decide
-    rw [this, findFile_layerFile hd (by decide) h₁]
+    rw [this, findRooted_layerFile hd (by decide) h₁]
     rfl
   have hne : (d ++ ["a" ++ "." ++ e₁] == d ++ ["a.b" ++ "." ++ e₂]) = false :=
     layer_path_ne d _ _ _ _ (supportedExt_noDot _ h₁.ext) (supportedExt_noDot _ h₂.ext)
@@ -986,10 +1147,10 @@ theorem chain3 (hd : PlainDir fs d) (h₁ : LayerFile fs d "a" e₁ (.ok [v₁])
                 [fileIdOf childId (d ++ ["a.b.c" ++ "." ++ e₃]) ++ "|" ++
                   pathStr (d ++ ["a.b" ++ "." ++ e₂]) ++ "|doc" ++ toString 0] v₃] }],
         [fileIdOf childId (d ++ ["a.b.c" ++ "." ++ e₃]) ++ "|doc" ++ toString 0]) := by
-  have hp : fileParents fs (d ++ ["a.b.c" ++ "." ++ e₃]) [v₃] = .ok [d ++ ["a.b" ++ "." ++ e₂]] := by
-    rw [fileParents_layer hd (by decide) h₃ (by simpa using a₃), parts_abc]
+  have hp : fileParents fs ⟨[], cwd⟩ (d ++ ["a.b.c" ++ "." ++ e₃]) [v₃] = .ok [d ++ ["a.b" ++ "." ++ e₂]] := by
+    rw [fileParents_layer ⟨[], cwd⟩ hd (by decide) h₃ (by simpa using a₃), parts_abc]
     have : ".".intercalate (["a", "b", "c"] : List String).dropLast = "a.b" := by decide
-    rw [this, findFile_layerFile hd (by decide) h₂]
+    rw [this, findRooted_layerFile hd (by decide) h₂]
     rfl
   have hne2 : (d ++ ["a.b" ++ "." ++ e₂] == d ++ ["a.b.c" ++ "." ++ e₃]) = false :=
     layer_path_ne d _ _ _ _ (supportedExt_noDot _ h₂.ext) (supportedExt_noDot _ h₃.ext)
@@ -1070,24 +1231,142 @@ def globNames (fs : FS) (rdir : Comps) (base : String) : List String :=
       globMatch (base ++ ".*").toList n.toList ((base ++ ".*").length + n.length + 1)
         && countDots n == countDots (base ++ ".*") && supportedExts.contains (extOf n)
 
-theorem globFiles_eq (fs : FS) (dir : Comps) (base : String) :
-    fs.globFiles dir base =
-      match fs.evalSymlinks dir with
-      | none => []
-      | some rdir =>
-        ((globNames fs rdir base).toArray.qsort (· < ·)).toList.map fun n => dir ++ [n] := rfl
+/-- the (unsorted) names in the directory `real` -/
+def dirNames (fs : FS) (real : Comps) : List String :=
+  (fs.entries.filter (fun e => e.1.dropLast == real && !e.1.isEmpty)).map (fun e => baseOf e.1)
 
-theorem mem_globFiles {fs : FS} {dir : Comps} {base : String} {f : Comps}
-    (h : f ∈ fs.globFiles dir base) :
-    ∃ rdir n, fs.evalSymlinks dir = some rdir ∧ f = dir ++ [n] ∧ n ∈ globNames fs rdir base := by
-  rw [globFiles_eq] at h
-  cases hr : fs.evalSymlinks dir with
-  | none => rw [hr] at h; cases h
-  | some rdir =>
-    rw [hr] at h
-    obtain ⟨n, hn, rfl⟩ := List.mem_map.1 h
-    rw [mem_qsort] at hn
-    exact ⟨rdir, n, rfl, rfl, by simpa using hn⟩
+/-- what `globFiles` asks of a name for the pattern `base.*` -/
+def globSel (base n : String) : Bool :=
+  globMatch (base ++ ".*").toList n.toList ((base ++ ".*").length + n.length + 1)
+    && countDots n == countDots (base ++ ".*") && supportedExts.contains (extOf n)
+
+theorem globNames_eq (fs : FS) (rdir : Comps) (base : String) :
+    globNames fs rdir base = (dirNames fs rdir).filter (globSel base) := rfl
+
+theorem qsort_perm {α : Type} (lt : α → α → Bool) (as : Array α) :
+    (as.qsort lt).toList.Perm as.toList := by
+  unfold Array.qsort
+  split
+  · exact List.Perm.refl _
+  · simp only []
+    have := qsort_sort_perm lt as.toVector (min 0 (as.size - 1))
+      (max (min 0 (as.size - 1)) (min (as.size - 1) (as.size - 1))) (by omega) (by omega) (by omega)
+    exact Vector.perm_iff_toList_perm.1 this
+
+theorem rootReadDir_eq (fs : FS) (root : Comps) (rel : List String) :
+    fs.rootReadDir root rel =
+      match fs.rootWalk root linkFuel root rel with
+      | .error _ => []
+      | .ok real =>
+        match fs.lstat real with
+        | some .dir => ((dirNames fs real).toArray.qsort (· < ·)).toList
+        | _ => [] := rfl
+
+theorem rootReadDir_of_dir {fs : FS} {root real : Comps} {rel : List String}
+    (hw : fs.rootWalk root linkFuel root rel = .ok real) (hd : fs.lstat real = some .dir) :
+    fs.rootReadDir root rel = ((dirNames fs real).toArray.qsort (· < ·)).toList := by
+  rw [rootReadDir_eq, hw]
+  simp only [hd]
+
+theorem globRev_cons (fs : FS) (root : Comps) (file : String) (dirRev : List String) :
+    fs.globRev root (file :: dirRev) =
+      (if dirRev.any hasMeta then fs.globRev root dirRev else [dirRev.reverse]).flatMap fun d =>
+        ((fs.rootReadDir root d).filter fun n =>
+          globMatch file.toList n.toList (file.length + n.length + 1)).map fun n => d ++ [n] := by
+  rw [FS.globRev]
+
+theorem dotstar_ne_dotdot (base : String) : (base ++ ".*" == "..") = false := by
+  rw [beq_eq_false_iff_ne]
+  intro h
+  have := congrArg (fun s => s.toList.getLast?) h
+  simp [String.toList_append] at this
+
+/-- `globFiles` for a target whose directory (relative to the root) holds no wildcard -/
+theorem globFiles_snoc (fs : FS) (root d : Comps) (base : String)
+    (hd : ∀ c ∈ d, plainComp c = true) (hm : d.any hasMeta = false) :
+    fs.globFiles root (root ++ d ++ [base]) =
+      ((fs.rootReadDir root d).filter (globSel base)).map fun n => root ++ d ++ [n] := by
+  unfold FS.globFiles
+  simp only []
+  rw [dirOf_snoc, baseOf_snoc, List.append_assoc, relTo_append]
+  have hany : (d ++ [base ++ ".*"]).any (· == "..") = false := by
+    rw [List.any_append, Bool.or_eq_false_iff]
+    refine ⟨?_, by simp [dotstar_ne_dotdot]⟩
+    rw [List.any_eq_false]
+    intro c hc
+    have := ((plainComp_iff c).1 (hd c hc)).2.2
+    simpa using this
+  rw [hany]
+  simp only [Bool.false_eq_true, if_false, List.reverse_append, List.reverse_cons, List.reverse_nil,
+    List.nil_append, List.singleton_append]
+  rw [globRev_cons, List.any_reverse, hm]
+  simp only [Bool.false_eq_true, if_false, List.reverse_reverse, List.flatMap_cons,
+    List.flatMap_nil, List.append_nil]
+  have hsel : ∀ n : String,
+      ((((d ++ [n]).map countDots).sum == ((d ++ [base ++ ".*"]).map countDots).sum &&
+          supportedExts.contains (extOf ((d ++ [n]).getLastD ""))) &&
+        globMatch (base ++ ".*").toList n.toList ((base ++ ".*").length + n.length + 1)) =
+        globSel base n := by
+    intro n
+    have h1 : (d ++ [n]).getLastD "" = n := baseOf_snoc d n
+    have h2 : (((d ++ [n]).map countDots).sum == ((d ++ [base ++ ".*"]).map countDots).sum) =
+        (countDots n == countDots (base ++ ".*")) := by
+      rw [Bool.eq_iff_iff]; simp
+    rw [h1, h2]
+    unfold globSel
+    cases globMatch (base ++ ".*").toList n.toList ((base ++ ".*").length + n.length + 1) <;>
+      cases (countDots n == countDots (base ++ ".*")) <;>
+      cases supportedExts.contains (extOf n) <;> rfl
+  rw [List.filter_map, List.filter_filter, List.map_map]
+  have hf : ∀ (p : String → Bool) (l : List String), (∀ n, p n = globSel base n) →
+      l.filter p = l.filter (globSel base) := fun p l h => by
+    rw [show p = globSel base from funext h]
+  refine Eq.trans (congrArg (List.map _) (hf _ _ (fun n => ?_))) ?_
+  · exact hsel n
+  apply List.map_congr_left
+  intro n _
+  simp [Function.comp, List.append_assoc]
+
+theorem filter_qsort_perm (p : String → Bool) (l : List String) :
+    (((l.toArray.qsort (· < ·)).toList).filter p).Perm (l.filter p) :=
+  (qsort_perm _ _).filter p
+
+theorem globFiles_singleton {fs : FS} {root d real : Comps} {base n : String}
+    (hd : ∀ c ∈ d, plainComp c = true) (hm : d.any hasMeta = false)
+    (hw : fs.rootWalk root linkFuel root d = .ok real) (hdir : fs.lstat real = some .dir)
+    (h2 : globNames fs real base = [n]) :
+    fs.globFiles root (root ++ d ++ [base]) = [root ++ d ++ [n]] := by
+  rw [globFiles_snoc fs root d base hd hm, rootReadDir_of_dir hw hdir]
+  have := filter_qsort_perm (globSel base) (dirNames fs real)
+  rw [← globNames_eq, h2] at this
+  rw [List.perm_singleton.1 this]
+  rfl
+
+theorem globFiles_nil {fs : FS} {root d real : Comps} {base : String}
+    (hd : ∀ c ∈ d, plainComp c = true) (hm : d.any hasMeta = false)
+    (hw : fs.rootWalk root linkFuel root d = .ok real) (hdir : fs.lstat real = some .dir)
+    (h2 : globNames fs real base = []) :
+    fs.globFiles root (root ++ d ++ [base]) = [] := by
+  rw [globFiles_snoc fs root d base hd hm, rootReadDir_of_dir hw hdir]
+  have := filter_qsort_perm (globSel base) (dirNames fs real)
+  rw [← globNames_eq, h2] at this
+  rw [List.perm_nil.1 this]
+  rfl
+
+/-- the same with no root set -/
+theorem globFiles_singleton_noroot {fs : FS} {d real : Comps} {base n : String}
+    (hd : ∀ c ∈ d, plainComp c = true) (hm : d.any hasMeta = false)
+    (hw : fs.rootWalk [] linkFuel [] d = .ok real) (hdir : fs.lstat real = some .dir)
+    (h2 : globNames fs real base = [n]) :
+    fs.globFiles [] (d ++ [base]) = [d ++ [n]] :=
+  globFiles_singleton (root := []) hd hm hw hdir h2
+
+theorem globFiles_nil_noroot {fs : FS} {d real : Comps} {base : String}
+    (hd : ∀ c ∈ d, plainComp c = true) (hm : d.any hasMeta = false)
+    (hw : fs.rootWalk [] linkFuel [] d = .ok real) (hdir : fs.lstat real = some .dir)
+    (h2 : globNames fs real base = []) :
+    fs.globFiles [] (d ++ [base]) = [] :=
+  globFiles_nil (root := []) hd hm hw hdir h2
 
 theorem mem_globNames {fs : FS} {rdir : Comps} {base n : String} (h : n ∈ globNames fs rdir base) :
     globMatch (base ++ ".*").toList n.toList ((base ++ ".*").length + n.length + 1) = true ∧
@@ -1107,21 +1386,138 @@ theorem mem_globNames {fs : FS} {rdir : Comps} {base n : String} (h : n ∈ glob
     simp only [Bool.and_eq_true, beq_iff_eq] at this
     exact this.1
 
-theorem globFiles_singleton {fs : FS} {dir rdir : Comps} {base n : String}
-    (h1 : fs.evalSymlinks dir = some rdir) (h2 : globNames fs rdir base = [n]) :
-    fs.globFiles dir base = [dir ++ [n]] := by
-  rw [globFiles_eq, h1]
-  simp only []
-  rw [h2, show ([n] : List String).toArray = #[n] from rfl, qsort_singleton]
-  rfl
+/-! ### what a glob match is, in general (wildcards in directory components allowed) -/
 
-theorem globFiles_nil {fs : FS} {dir rdir : Comps} {base : String}
-    (h1 : fs.evalSymlinks dir = some rdir) (h2 : globNames fs rdir base = []) :
-    fs.globFiles dir base = [] := by
-  rw [globFiles_eq, h1]
-  simp only []
-  rw [h2]
-  simp [Array.qsort]
+theorem mem_rootReadDir {fs : FS} {root : Comps} {rel : List String} {n : String}
+    (h : n ∈ fs.rootReadDir root rel) :
+    ∃ real, fs.rootWalk root linkFuel root rel = .ok real ∧ fs.lstat real = some .dir ∧
+      n ∈ dirNames fs real := by
+  rw [rootReadDir_eq] at h
+  cases hw : fs.rootWalk root linkFuel root rel with
+  | error e => rw [hw] at h; cases h
+  | ok real =>
+    rw [hw] at h
+    simp only [] at h
+    cases hl : fs.lstat real with
+    | none => rw [hl] at h; cases h
+    | some nd =>
+      rw [hl] at h
+      cases nd with
+      | file _ => cases h
+      | link _ => cases h
+      | dir => exact ⟨real, rfl, hl, (mem_qsort _ _ _).1 h⟩
+
+theorem mem_dirNames {fs : FS} {real : Comps} {n : String} (h : n ∈ dirNames fs real) :
+    ∃ e ∈ fs.entries, e.1 ≠ [] ∧ e.1.dropLast = real ∧ baseOf e.1 = n := by
+  obtain ⟨e, he, rfl⟩ := List.mem_map.1 h
+  rw [List.mem_filter] at he
+  have := he.2
+  simp only [Bool.and_eq_true, beq_iff_eq, Bool.not_eq_true', List.isEmpty_eq_false_iff] at this
+  exact ⟨e, he.1, this.2, this.1, rfl⟩
+
+theorem mem_globRev_cons {fs : FS} {root : Comps} {file : String} {dirRev : List String}
+    {m : List String} (h : m ∈ fs.globRev root (file :: dirRev)) :
+    ∃ d n, m = d ++ [n] ∧
+      d ∈ (if dirRev.any hasMeta then fs.globRev root dirRev else [dirRev.reverse]) ∧
+      n ∈ fs.rootReadDir root d ∧
+      globMatch file.toList n.toList (file.length + n.length + 1) = true := by
+  rw [globRev_cons, List.mem_flatMap] at h
+  obtain ⟨d, hd, hm⟩ := h
+  obtain ⟨n, hn, rfl⟩ := List.mem_map.1 hm
+  rw [List.mem_filter] at hn
+  exact ⟨d, n, rfl, hd, hn.1, hn.2⟩
+
+theorem globRev_length (fs : FS) (root : Comps) : ∀ (patRev m : List String),
+    m ∈ fs.globRev root patRev → m.length = patRev.length
+  | [], m, h => by
+    rw [FS.globRev] at h
+    simp only [List.mem_singleton] at h
+    subst h; rfl
+  | file :: dirRev, m, h => by
+    obtain ⟨d, n, rfl, hd, _, _⟩ := mem_globRev_cons h
+    have : d.length = dirRev.length := by
+      by_cases hm : dirRev.any hasMeta = true
+      · rw [if_pos hm] at hd
+        exact globRev_length fs root dirRev d hd
+      · rw [if_neg hm] at hd
+        simp only [List.mem_singleton] at hd
+        subst hd; simp
+    simp [this]
+
+theorem extOf_empty_unsupported : supportedExts.contains (extOf "") = false := by
+  unfold extOf
+  rw [splitOn_dot]
+  decide
+
+/-- every glob match: the pattern is `dpat/base.*` beneath the root, the match is `m/n` with `n`
+    an entry of the directory `m` (opened beneath the root) that matches `base.*`, the dots add
+    up and the extension is supported; `m` is `dpat` itself when `dpat` holds no wildcard -/
+theorem mem_globFiles_spec {fs : FS} {root target f : Comps} (h : f ∈ fs.globFiles root target) :
+    ∃ dpat m n, relTo root (dirOf target ++ [baseOf target ++ ".*"]) = dpat ++ [baseOf target ++ ".*"] ∧
+      root ++ dpat = dirOf target ∧ f = root ++ m ++ [n] ∧ m.length = dpat.length ∧
+      (dpat.any hasMeta = false → m = dpat) ∧
+      (∃ real, fs.rootWalk root linkFuel root m = .ok real ∧ fs.lstat real = some .dir ∧
+        n ∈ dirNames fs real) ∧
+      globMatch (baseOf target ++ ".*").toList n.toList
+        ((baseOf target ++ ".*").length + n.length + 1) = true ∧
+      ((m ++ [n]).map countDots).sum = ((dpat ++ [baseOf target ++ ".*"]).map countDots).sum ∧
+      supportedExts.contains (extOf n) = true := by
+  unfold FS.globFiles at h
+  simp only [] at h
+  generalize hpat : relTo root (dirOf target ++ [baseOf target ++ ".*"]) = pat at h
+  by_cases hdd : pat.any (· == "..") = true
+  · rw [if_pos hdd] at h; cases h
+  · rw [if_neg hdd] at h
+    have hdd' : pat.any (· == "..") = false := by
+      cases hx : pat.any (· == "..") with
+      | false => rfl
+      | true => exact absurd hx hdd
+    obtain ⟨mm, hmm, rfl⟩ := List.mem_map.1 h
+    rw [List.mem_filter] at hmm
+    obtain ⟨hmem, hsel⟩ := hmm
+    simp only [Bool.and_eq_true, beq_iff_eq] at hsel
+    have hfull := relTo_no_dotdot root _ (hpat ▸ hdd')
+    rw [hpat] at hfull
+    -- the pattern is not empty
+    cases hrev : pat.reverse with
+    | nil =>
+      rw [hrev, FS.globRev] at hmem
+      simp only [List.mem_singleton] at hmem
+      subst hmem
+      have := hsel.2
+      simp only [List.getLastD_nil] at this
+      rw [extOf_empty_unsupported] at this
+      cases this
+    | cons file dirRev =>
+      have hpat' : pat = dirRev.reverse ++ [file] := by
+        have := congrArg List.reverse hrev
+        simpa using this
+      have hfile : file = baseOf target ++ ".*" := by
+        have := congrArg (fun l => l.getLast?) hfull
+        simp only [hpat', ← List.append_assoc, List.getLast?_append, List.getLast?_singleton,
+          Option.some_or, Option.some.injEq] at this
+        exact this
+      subst hfile
+      rw [hrev] at hmem
+      obtain ⟨d, n, rfl, hd, hn, hmatch⟩ := mem_globRev_cons hmem
+      refine ⟨dirRev.reverse, d, n, hpat', ?_, by rw [List.append_assoc], ?_, ?_, mem_rootReadDir hn,
+        hmatch, ?_, ?_⟩
+      · rw [hpat', ← List.append_assoc] at hfull
+        have := congrArg List.dropLast hfull
+        simpa [dirOf] using this
+      · by_cases hm : dirRev.any hasMeta = true
+        · rw [if_pos hm] at hd
+          rw [globRev_length fs root dirRev d hd]; simp
+        · rw [if_neg hm] at hd
+          simp only [List.mem_singleton] at hd
+          subst hd; rfl
+      · intro hm
+        rw [List.any_reverse] at hm
+        rw [hm] at hd
+        simpa using hd
+      · rw [hsel.1, hpat']
+      · have := hsel.2
+        rwa [show (d ++ [n]).getLastD "" = n from baseOf_snoc d n] at this
 
 theorem extOf_eq (base : String) :
     extOf base =
@@ -1156,7 +1552,7 @@ theorem selfFS_load (fid : String) :
   rfl
 
 theorem selfFS_parents :
-    fileParents selfFS ["a.yaml"] [.map [("$parent", .str "a")]] = .ok [["a.yaml"]] := by
+    fileParents selfFS ⟨[], []⟩ ["a.yaml"] [.map [("$parent", .str "a")]] = .ok [["a.yaml"]] := by
   rw [fileParents_eq]
   have h1 : [Val.map [("$parent", .str "a")]].mapM parentDirective = .ok [.names ["a"]] := by
     rw [mapM_R_cons, mapM_R_nil]; rfl
@@ -1164,12 +1560,13 @@ theorem selfFS_parents :
   have h2 : hasNoParent [.names ["a"]] = false := rfl
   have h3 : parentNames [.names ["a"]] = ["a"] := rfl
   simp only [h2, h3]
-  have h4 : globName selfFS ["a.yaml"] "a" = [["a.yaml"]] := by
+  have h4 : globName selfFS ⟨[], []⟩ ["a.yaml"] "a" = [["a.yaml"]] := by
     unfold globName
     rw [splitPath_lit "a" ["a"] (by decide)]
-    have : cleanComps (dirOf ["a.yaml"] ++ ["a"]) = ["a"] := by decide
+    have : cleanComps (dirOf ["a.yaml"] ++ ["a"]) = [] ++ ["a"] := by decide
     rw [this]
-    exact globFiles_singleton (rdir := []) (by decide) selfFS_glob
+    exact globFiles_singleton_noroot (d := []) (real := []) (by decide) (by decide) (by decide)
+      (by decide) selfFS_glob
   simp [globStep, h4]
 
 theorem selfFS_cycle :
@@ -1357,18 +1754,19 @@ theorem cliMerge_append (fs : FS) (cwd : Comps) (cfg : RootCfg) (sp : Bool) :
     | error e => rfl
     | ok acc' => exact cliMerge_append fs cwd cfg sp l₁ l₂ acc'
 
-theorem globStep_foldlM (fs : FS) (path : Comps) : ∀ (names : List String) (acc : List Comps),
-    names.foldlM (globStep fs path) acc =
-      if names.any (fun n => (globName fs path n).isEmpty) then .error .missingFile
-      else .ok (acc ++ names.flatMap (globName fs path))
+theorem globStep_foldlM (fs : FS) (cfg : RootCfg) (path : Comps) :
+    ∀ (names : List String) (acc : List Comps),
+    names.foldlM (globStep fs cfg path) acc =
+      if names.any (fun n => (globName fs cfg path n).isEmpty) then .error .missingFile
+      else .ok (acc ++ names.flatMap (globName fs cfg path))
   | [], acc => by simp [List.foldlM_nil]
   | n :: names, acc => by
     rw [List.foldlM_cons, globStep]
-    by_cases h : (globName fs path n).isEmpty = true
+    by_cases h : (globName fs cfg path n).isEmpty = true
     · simp [h]
     · simp only [h, Bool.false_eq_true, if_false, R_bind_ok, List.any_cons, Bool.false_or,
         List.flatMap_cons]
-      rw [globStep_foldlM fs path names, List.append_assoc]
+      rw [globStep_foldlM fs cfg path names, List.append_assoc]
 
 theorem plainDir_single {fs : FS} {c : String} {n : FNode} (hc : plainComp c = true)
     (hl : fs.lstat [c] = some n) (hn : n.isLink = false) : PlainDir fs [c] := by
